@@ -250,6 +250,13 @@ func serveTCPSocket(conn *net.TCPConn, addr *net.TCPAddr, inbound chan<- Service
 			return
 		}
 
+		// A total length that does not even cover the header would never consume anything:
+		// the stream cannot be resynchronised.
+		if totalLen < 6 {
+			util.Log(conn, "Invalid total length in header: %d", totalLen)
+			return
+		}
+
 		buffer := make([]byte, totalLen)
 		len, err := io.ReadFull(connBuffer, buffer)
 		if err != nil {
